@@ -841,11 +841,15 @@ def run(chk, ctx):
                 '(0, -0, nan, +-inf, denormal min, DBL_MAX, 1e+-300, 17-digit values), log-uniform 1e-300..1e300 with sign, integers '
                 'up to 1e16, uniform, random bit patterns; mask density 0/0.1/0.5/1 with corners forced masked / unmasked / left; folded or '
                 'not; labels none or one per axis from a pool with spaces, tabs, empty, non-ASCII, the words folded/unfolded; 0-5 comment '
-                'lines from a pool with padding, quotes, #, non-breaking spaces; precision 16..30; extrap_x none or a float).  Each case '
+                'lines from a pool with padding, quotes, #, non-breaking spaces; precision 16..30; extrap_x none or a float; MEMORY LAYOUT: the same logical content is held as C / Fortran-ordered / axis-permuted view / '
+                '[::2] view of a larger array / negative strides / read-only broadcast (zero-stride) storage, chosen independently for data and mask '
+                '(constructor with and without copy), or the Spectrum itself is a transpose / swapaxes / sliced VIEW of another Spectrum; the harness '
+                'verifies that every route leaves the logical entries unchanged and all comparisons are entry by entry in logical order).  Each case '
                 'is run through to_file/from_file plain and .gz, the pre-1.3 format, pickle protocols 0..5, array_to_file/array_from_file, '
                 'and (K) the written texts, 8 (quick) or all ~30 (thorough) hand-made variants of the file, the reduce tuple and the '
                 'unpickler are compared with the Lean model.  A case counts as distinct/non-trivial by the key (operation, number of axes, '
-                'has a singleton axis, folded, label kind, number of comments, precision, set of value classes present, mask trivial or not).')
+                'has a singleton axis, folded, label kind, number of comments, precision, set of value classes present, mask trivial or not, '
+                'layout route and data/mask layouts, axis lengths all equal or not).')
     chk.unproved = [
         "'%.{p}g' % x / strtod: that a formatted entry is a whitespace-free token which reads back to a float printing to the same token "
         "(the same float for p >= 17) is a trusted parameter, validated numerically (P) for p in 16..30, not proved",
